@@ -4,7 +4,7 @@ import enum
 import collections.abc
 import typing as t
 
-from .. import env, genval, gentypes, drive, deepeq, model
+from .. import entrypoints, env, genval, gentypes, drive, deepeq, model
 from ..common import observe, build_type, plain_data
 from ..ctx import short
 from ..deepeq import deep_typed_eq
@@ -212,6 +212,14 @@ def classify(ty, x):
             wrapped = [n for n in _nodes(m) if n.k == 'tagged' and n.x['external'] is not False]
             if any(_holds_instance(x, py_class(v)) for n in wrapped for v in n.a):
                 return 'wrapped-tagged-union-inside-untagged-union'
+            # an INTERNALLY tagged member whose variant renames its tag field is in the same position: the untagged union writes the
+            # instance by its own class (no member's fast pass takes a typed instance), so the tag lands under the renamed key only
+            for n in (n_ for n_ in _nodes(m) if n_.k == 'tagged' and n_.x['external'] is False):
+                for v in n.a:
+                    S = v.x['spec']
+                    tagf = next((f for f in S.fields if f.name == n.x['tag']), None)
+                    if tagf is not None and model.out_name(S, tagf) != n.x['tag'] and _holds_instance(x, py_class(v)):
+                        return 'wrapped-tagged-union-inside-untagged-union'
     if ty.k in ('dict', 'counter') and contains(ty.a[0], lambda n: n.k in ('dc', 'struct', 'dict', 'counter', 'tagged')):
         d = observe(env.into_data, x, build(ty))
         if d.kind == 'escape' and isinstance(d.exc, TypeError) and "unhashable type: 'dict'" in str(d.exc):
@@ -257,6 +265,22 @@ def run(ctx):
             if d1.kind != 'value' or not deep_typed_eq(d0.val, d1.val)[0]:
                 bad = ('method-into_data-differs', f"{d1.brief()} vs {d0.brief()}")
         if bad is None:
+            if rng.random() < 0.2:
+                # the other ways out write the same data, and the data read back as TEXT (a JSON / YAML document, top-level null, 0,
+                # false, '' and [] included) is the same value again
+                d = env.into_data(x, T)
+                if not entrypoints.check_output_agreement(ctx, 'round-trip', sub, i, T, x, d, describe(ty), is_dc=ty.k == 'dc', inferable=ty.k == 'dc'):
+                    return
+                dp = plain_data(d)
+                if entrypoints._only_plain_carriers(dp) and entrypoints.jsonable(dp):
+                    import io as _io, json as _json, yaml as _yaml
+                    for fmt, text in (('json', _json.dumps(dp)), ('yaml', _yaml.safe_dump(dp, sort_keys=False))):
+                        back = observe(getattr(env.m_io, 'from_' + fmt), _io.StringIO(text), T)
+                        ctx.count('text_roundtrips')
+                        if back.kind != 'value' or not deep_typed_eq(x, back.val)[0]:
+                            ctx.violation('round-trip', sub, i, {'type': describe(ty), 'typed': short(x, 300), 'document': short(text, 200), 'format': fmt,
+                                                                 'read_back': back.brief()}, mech=f"document-roundtrip:{fmt}")
+                            return
             return
         stage, detail = bad
 
@@ -389,6 +413,15 @@ def run(ctx):
         if back.kind != 'value' or not (back.val == o.val):
             ctx.violation('round-trip', 'fieldconv', i, {**wit, 'into_data': d.brief(), 'reparsed': back.brief()}, mech='custom-form:reparse-differs')
             return
+        # the writer methods with the same handlers: the string form, the stream form and into_data all write the custom form
+        import io as _io, json as _json
+        sio = _io.StringIO()
+        w1, w2 = observe(o.val.write_json, custom=custom), observe(o.val.write_json, sio, custom=custom)
+        for label, got in (('x.write_json(custom=)', w1.val if w1.kind == 'value' else None), ('x.write_json(stream, custom=)', sio.getvalue() if w2.kind == 'value' else None)):
+            ctx.count('custom_form_writer_checks')
+            if got is None or not deep_typed_eq(_listify(want), _listify(_json.loads(got)))[0]:
+                ctx.violation('round-trip', 'fieldconv', i, {**wit, 'writer': label, 'text': short(got, 200), 'expected_data': short(want)}, mech='custom-form:writer-differs')
+                return
         if how != 'call':
             m = observe(o.val.into_data)
             if m.kind != 'value' or not deep_typed_eq(_listify(want), _listify(m.val))[0]:
